@@ -12,8 +12,8 @@ from ledger import vdrive
 CLASSES = {"null", "emptyString", "negative", "zero", "gtInt64", "gtUint64", "negativeString", "hugeString", "notANumberString", "emptyObject",
            "emptyArray", "boolean", "longString", "shortAddress", "badHexAddress", "unknownCurrency", "nullValueAmount", "float", "delete"}
 MC = dict(Classes=CLASSES, Paths={"check", "honest", "direct"}, Outcomes={"reject", "accept"})
-FAMILIES = ["benign", "stake", "deleg", "alleg", "eth"]
-HISTORY_FAMILIES = ["base", "stake", "deleg", "alleg", "eth", "eth5", "valset", "failing"]
+FAMILIES = ["benign", "stake", "deleg", "alleg", "eth", "gov"]
+HISTORY_FAMILIES = ["base", "stake", "deleg", "alleg", "eth", "eth5", "valset", "failing", "gov", "govmix"]
 
 
 def run(ctx, replay):
